@@ -690,8 +690,11 @@ fn failing_programs(tier: Tier) -> Vec<Program> {
             ("empty return", vec![(m, entry(&req("./a", form))), (a, "return\n".to_owned())], vec!["a.lua"]),
             ("two values", vec![(m, entry(&req("./a", form))), (a, "return 1, 2\n".to_owned())], vec!["a.lua"]),
             ("empty module", vec![(m, entry(&req("./a", form))), (a, "".to_owned())], vec!["a.lua"]),
-            ("malformed json", vec![(m, entry(&req("./d.json", form))), ("src/d.json", "{\"a\": ".to_owned())], vec!["main.lua"]),
-            ("malformed toml", vec![(m, entry(&req("./d.toml", form))), ("src/d.toml", "a = = 1".to_owned())], vec!["main.lua"]),
+            ("malformed json", vec![(m, entry(&req("./d.json", form))), ("src/d.json", "{\"a\": ".to_owned())], vec!["d.json"]),
+            ("malformed json5", vec![(m, entry(&req("./d.json5", form))), ("src/d.json5", "{a: ".to_owned())], vec!["d.json5"]),
+            ("malformed yaml", vec![(m, entry(&req("./d.yaml", form))), ("src/d.yaml", "a: [1".to_owned())], vec!["d.yaml"]),
+            ("malformed toml", vec![(m, entry(&req("./d.toml", form))), ("src/d.toml", "a = = 1".to_owned())], vec!["d.toml"]),
+            ("malformed data behind a sound one", vec![(m, entry(&format!("{}{}", req("./ok.json", 0), req("./a", 0)))), (a, modt(a, &req("./d.json", form))), ("src/ok.json", "{\"fine\": true}".to_owned()), ("src/d.json", "[1, ".to_owned())], vec!["d.json"]),
             ("unknown extension", vec![(m, entry(&req("./d.data", form))), ("src/d.data", "return 1".to_owned())], vec!["d.data"]),
             ("no extension", vec![(m, entry(&req("./d", form))), ("src/d", "return 1".to_owned())], vec!["src/d"]),
             ("deep malformed", vec![(m, entry(&req("./a", 0))), (a, modt(a, &req("./b", form))), (b, "return 1, 2".to_owned())], vec!["b.lua"]),
